@@ -19,7 +19,8 @@ void vm_shared_init (void);                            /* parent, before vx_run 
 void vm_fail (const char *key, const char *fmt, ...);  /* vx_fail, at most 6 records per key per run; totals in shared memory */
 void vm_write_key_totals (const char *path);
 extern const char *vm_noinj_name;
-void vm_run_isolated (void (*fn) (long), long idx);   /* run fn(idx) in a forked copy of this process, report its death */
+extern unsigned vm_elem_alarm_s;                        /* an element running longer is killed and reported as hang:element */
+int vm_run_isolated (void (*fn) (long), long idx);   /* run fn(idx) in a forked copy of this process, report its death */
 
 /* ---- register snapshot */
 typedef struct {
